@@ -38,7 +38,7 @@ const repoMod = "github.com/google/inverting-proxy"
 // path as unsupported, never with a silent zero value.
 var defaultInit = []string{"io", "errors", "strings", "strconv", "bytes", "unicode/utf8", "context", "net/http", "net/textproto", "net/url",
 	"vendor/golang.org/x/net/http/httpguts", "encoding/hex", "encoding/base64", "io/fs", "os", "syscall", "internal/oserror", "internal/poll", "math/rand",
-	"github.com/gorilla/websocket", "container/list", "sort", "path", "net/http/httputil", "net/http/cookiejar", "golang.org/x/net/publicsuffix", "net/http/httptrace", "github.com/golang/groupcache/lru", "github.com/google/uuid", "net/http/internal", "net/http/internal/ascii", "mime", "bufio", "net", "sync", "time"}
+	"github.com/gorilla/websocket", "container/list", "sort", "path", "net/http/httputil", "net/http/cookiejar", "golang.org/x/net/publicsuffix", "net/http/httptrace", "github.com/golang/groupcache/lru", "github.com/google/uuid", "google.golang.org/appengine/v2/datastore", "google.golang.org/appengine/v2/memcache", "google.golang.org/appengine/v2/user", "google.golang.org/appengine/v2", "net/http/internal", "net/http/internal/ascii", "mime", "bufio", "net", "sync", "time"}
 
 var (
 	verifDir = envOr("VERIF_DIR", "/verif")
